@@ -1,6 +1,7 @@
 import HavocVerif.Lemmas.Frame
 import HavocVerif.Model.TaskTable
 import HavocVerif.Model.Queue
+import HavocVerif.Gen.JobCodec
 /-
   C02 — An operator's task reaches the agent exactly as issued.
 -/
@@ -151,5 +152,50 @@ theorem memfile_reads :
       some ["ParserGetInt32", "ParserGetInt64", "ParserGetBytes"] := by decide
 
 end TaskTable
+
+/-! ### The argument encoder of `BuildPayloadMessage`, regenerated from agent.go on every run -/
+
+/-- the number of bytes one argument adds to `DataPayload`, read from the extracted table: the buffers made, plus the
+    argument itself where the case appends twice (length prefix, then the bytes) -/
+def tableEncodeLen (a : Arg) : Option Nat :=
+  (Gen.JobCodec.encodeCases.find? (·.1 == a.goType)).map fun (_, mk, _, ap) =>
+    mk.sum + if ap == 2 then (match a with | .str s => (cstr s).length | .bytes b => b.length | _ => 0) else 0
+
+theorem encode_length_is_source_table (a : Arg) : tableEncodeLen a = some (a.encode).length := by
+  cases a <;> simp [tableEncodeLen, Gen.JobCodec.encodeCases, Arg.goType, Arg.encode, le32, le64, le16] <;> omega
+
+def putWidth : String → Nat
+  | "PutUint16" => 2 | "PutUint32" => 4 | "PutUint64" => 8 | _ => 0
+
+/-- every `binary.LittleEndian.Put*` call of the encoder writes exactly the buffer its case made (little endian, full
+    width), and the only case without one is the single byte -/
+theorem put_fills_buffer :
+    Gen.JobCodec.encodeCases.all (fun (t, mk, puts, _) =>
+      (puts.all fun f => [putWidth f] == mk) && (puts.isEmpty == (t == "byte"))) = true := by decide
+
+/-- the string case (terminator added unless present, length prefix counts it), the byte-string case, and the frame:
+    command, request id, body length, then the body encrypted in one call of its own and only when it is not empty -/
+theorem encoder_transcribed :
+    Gen.JobCodec.encodeString =
+      ["var size = make([]byte, 4)", "str := job.Data[i].(string)",
+       "if strings.HasSuffix(str, \"\\x00\") == false { str += \"\\x00\" }",
+       "binary.LittleEndian.PutUint32(size, uint32(len(str)))",
+       "DataPayload = append(DataPayload, size...)", "DataPayload = append(DataPayload, []byte(str)...)", "break"] ∧
+    Gen.JobCodec.encodeBytes =
+      ["var size = make([]byte, 4)", "binary.LittleEndian.PutUint32(size, uint32(len(job.Data[i].([]byte))))",
+       "DataPayload = append(DataPayload, size...)", "DataPayload = append(DataPayload, job.Data[i].([]byte)...)", "break"] ∧
+    Gen.JobCodec.encodeAfterArgs =
+      ["binary.LittleEndian.PutUint32(DataCommandID, job.Command)",
+       "PayloadPackage = append(PayloadPackage, DataCommandID...)",
+       "binary.LittleEndian.PutUint32(RequestID, job.RequestID)",
+       "PayloadPackage = append(PayloadPackage, RequestID...)",
+       "binary.LittleEndian.PutUint32(PayloadPackageSize, uint32(len(DataPayload)))",
+       "PayloadPackage = append(PayloadPackage, PayloadPackageSize...)",
+       "if len(DataPayload) > 0 { DataPayload = crypt.XCryptBytesAES256(DataPayload, AesKey, AesIv) PayloadPackage = append(PayloadPackage, DataPayload...) DataPayload = nil }"] ∧
+    Gen.JobCodec.encodeTail = ["return PayloadPackage"] :=
+  ⟨rfl, rfl, rfl, rfl⟩
+
+example : tableEncodeLen (.str [104, 105]) = some 7 ∧ tableEncodeLen (.str [104, 0]) = some 6 ∧
+    tableEncodeLen (.byte 3) = some 1 := by decide
 
 end Havoc.C02
